@@ -640,7 +640,8 @@ def metaLoop : Nat → Framer → MetaState → List Nat → Bool → List FragD
     Except RErr MetaState × Framer × List Nat
   | 0, fr, _, _, _, _, bs => (.error .eof, fr, bs)
   | fuel + 1, fr, st, frag, ended, decs, bs =>
-    if frag.length > 2 * st.remainSize % 4294967296 then (.error (.conn errCodeProtocol), fr, bs)
+    -- `int64(len(frag)) > 2*int64(remainSize)`: computed in int64, no uint32 wrap (repaired upstream)
+    if frag.length > 2 * st.remainSize then (.error (.conn errCodeProtocol), fr, bs)
     else if st.invalid then (.error (.conn errCodeProtocol), fr, bs)
     else
       let (st', werr) := metaWrite st (decs.headD {})
